@@ -210,3 +210,21 @@ Proof. split; vm_compute; reflexivity. Qed.
 Example sz_instantiation_gap :
   by_value_acyclicb sz_reg_inst ex_set = true /\ sizedb_emitted sz_reg_inst ex_set = Some false.
 Proof. split; vm_compute; reflexivity. Qed.
+
+(** ** the decidable hypotheses of [C02_sized_wf] hold on the recursive registry, and on the one
+    where the boolean fails: there the theorem says that the generated items have a by-value cycle *)
+Example sz_wf_hyps :
+  wf_regb sz_reg_ok = true /\ supportedb sz_reg_ok ex_set = true /\
+  wf_regb sz_reg_bad = true /\ supportedb sz_reg_bad ex_set = true /\
+  Shape.root_freshb ex_set = true.
+Proof. repeat split; vm_compute; reflexivity. Qed.
+
+Example sz_bad_by_theorem :
+  exists m, generate sz_reg_bad ex_set (types_equal sz_reg_bad) = Ok m /\
+            ~ (forall n p, ~ walk (item_edge ex_set m) n p p).
+Proof.
+  destruct sz_wf_hyps as (_ & _ & Hw & Hs & Hf).
+  destruct (sized_wf sz_reg_bad ex_set Hw Hs Hf) as [(p & Hd)|(m & Hg & Hiff)].
+  - exfalso. vm_compute in Hd. discriminate Hd.
+  - exists m. split; [exact Hg|]. intros Hac. apply Hiff in Hac. vm_compute in Hac. discriminate Hac.
+Qed.
